@@ -406,11 +406,15 @@ def apply_step(pool, l):
         add_legs = [npc.build_leg(ci2, leg) for leg in l['addlegs']]
         if op == 'add_charge_wrong':
             return 'store', a.add_charge(add_legs, qtotal=[int(x) for x in l['q2']])
-        return 'store', a.add_charge(add_legs, qtotal=[int(x) for x in l['q2']] if l['qgiven'] else None)
+        res = a.add_charge(add_legs, qtotal=[int(x) for x in l['q2']] if l['qgiven'] else None)
+        res._verif_operand = a
+        return 'store', res
     if op == 'drop_charge':
         return 'store', a.drop_charge(None if l['k'] == 0 else (l['name'] if l['byname'] else l['k'] - 1))
     if op == 'change_charge':
-        return 'store', a.change_charge(l['name'] if l['byname'] else l['k'] - 1, int(l['newmod']), l['newname'])
+        res = a.change_charge(l['name'] if l['byname'] else l['k'] - 1, int(l['newmod']), l['newname'])
+        res._verif_operand = a
+        return 'store', res
     if op == 'chinfo':
         if l['what'] == 'add':
             ci = ch.ChargeInfo.add([a.chinfo, b.chinfo])
@@ -658,6 +662,7 @@ def replay_behaviour(beh, canon=False, variant=0):
             if c is None and kind == 'store' and l.get('fresh'):
                 others = [x for s2, x in pool.items() if s2 != out and x is not val]
                 shared = [y for x in others for y in x._data] + ([val._verif_input] if hasattr(val, '_verif_input') else [])
+                shared += list(getattr(getattr(val, '_verif_operand', None), '_data', []))
                 if any(np.shares_memory(x, y) for x in val._data for y in shared if x.size and y.size):
                     c = 'entries-shared-with-operand'
             if c:
